@@ -11,11 +11,12 @@ for a deterministic sample of the forms, for the same workbook delivered as Mark
     element child, and that child carries an `id` attribute equal to the form id of the workbook (settings form_id /
     id_string; when the workbook names none: the file stem for path input, otherwise any non-empty id).
 
-Nothing else is demanded.  When a document does not parse, the oracle names the failure class from the SOURCE: it
-lists the places where the XLSForm conventions let the author supply an XML name (choices-sheet extra columns,
+Nothing else is demanded.  When a document does not parse (or lacks the skeleton), the oracle names the failure class
+from the SOURCE: it lists the places where the XLSForm conventions let the author supply an XML name (choices-sheet extra columns,
 bind:: / body:: / instance:: columns, settings attribute:: columns, the namespaces setting, question / group names,
 the form name) or text that XML 1.0 cannot carry, and re-converts the workbook with all of them made benign and with
-all but one class made benign.  A failure that survives with every such place benign is reported as `other`.
+all but one class made benign.  A failure that survives with every such place benign is reported as `other` (parse
+failure) or under its `skeleton:*` key.
 Names that XML 1.0 (5th edition) allows but expat (4th edition name tables) refuses are never reported.
 """
 from __future__ import annotations
@@ -28,7 +29,7 @@ import tempfile
 import xml.etree.ElementTree as ET
 
 from bounded import corpus
-from bounded.corpus import LANG1, LANG2, WB, XF, XH, Case
+from bounded.corpus import WB, XF, XH, Case
 
 USES_DEFAULT_CORPUS = True
 N_GENERATED = {"quick": 150, "thorough": 1500}
